@@ -263,7 +263,7 @@ def gen_input(rng, paired, fastq, containers=("",), p_interleaved=0.3, p_multime
     # FASTA files may start with '#' comment lines (accepted by dnaio and by cutadapt's detection)
     comments = rng.randint(1, 2) if (not fastq and rng.random() < 0.15) else 0
     if comments and layout == "two" and rng.random() >= p_comments_two_files:
-        comments = 0  # two-file paired FASTA with comment lines fails with --cores>1 (known finding KF-C06-3)
+        comments = 0
     return {"layout": layout, "ext": ext, "containers": conts, "members": members, "comments": comments}
 
 
@@ -366,8 +366,9 @@ def default_profile():
         p_big=0.01,
         p_huge=0.004,
         p_interleaved_redirect=0.3,
+        p_duplicate_adapter=0.03,
         p_unknown_name=0.0,  # an adapter literally named 'unknown' (legal with --discard-untrimmed/--untrimmed-output)
-        p_comments_two_files=0.0,  # only the check that owns KF-C06-3 generates it
+        p_comments_two_files=1.0,  # (was 0 while this was known finding KF-C06-3)
         p_mixed_pair=0.0,  # -o x.fastq -p y.fasta: only the check that owns KF-C06-2 generates it
         upper_only=False,  # reads over ACGTN only
     )
@@ -416,6 +417,15 @@ def gen_case(rng, profile=None):
                     ad2.append(gen_adapter(rng, end, nm, allow_linked=not pair_adapters, simple=P["simple_adapters"] or pair_adapters))
             if want2 and not demux and not pair_adapters and rng.random() < 0.25:
                 ad1 = []  # adapters on R2 only
+    if ad1 and not pair_adapters and rng.random() < P["p_duplicate_adapter"]:
+        # the same adapter (type and sequence) given twice under two names: legal, only warned about
+        src_ = rng.choice(ad1)
+        if src_["kind"] != "linked":
+            dup = dict(src_)
+            dup["name"] = f"ad{len(ad1)}" if named else None
+            body = src_["spec"].split("=", 1)[1] if (src_["name"] and "=" in src_["spec"]) else src_["spec"]
+            dup["spec"] = (f"{dup['name']}=" if dup["name"] else "") + body
+            ad1.append(dup)
     decoys = []
     if ad1 and rng.random() < P["p_decoy_adapter"]:
         nm = f"ad{len(ad1)}" if named else None
@@ -466,11 +476,11 @@ def gen_case(rng, profile=None):
     if rng.random() < P["p_modifiers"]:
         if P["shorten_before_adapter"]:
             if rng.random() < 0.3:
-                opts.append(["-u", str(rng.choice([1, 3, 5, -1, -4]))])
+                opts.append(["-u", str(rng.choice([1, 3, 5, -1, -4, 0]))])
                 if rng.random() < 0.3:
-                    opts.append(["-u", str(-rng.randint(1, 4))]) if int(opts[-1][1]) > 0 else None
+                    opts.append(["-u", str(-rng.randint(0, 4))]) if int(opts[-1][1]) > 0 else None
             if paired and rng.random() < 0.3:
-                opts.append(["-U", str(rng.choice([1, 2, 6, -3]))])
+                opts.append(["-U", str(rng.choice([1, 2, 6, -3, 0]))])
             if fastq and rng.random() < 0.3:
                 opts.append(["-q", rng.choice(["10", "20", "5,15", "30,0", "40"])])
             if fastq and paired and rng.random() < 0.2:
